@@ -93,7 +93,13 @@ class SidecarValidator:
                     refs_strings = {data.column_name: data.get_hed_strings() for data in sidecar}
                     if "HED" not in refs_strings:
                         refs_strings["HED"] = ["n/a"]
-                    for combination in itertools.product(*[refs_strings[key] for key in refs]):
+                    # Strings of columns whose type could not be confirmed (e.g. a value column without '#')
+                    # are not screened by _validate_refs: report unknown references here rather than index them.
+                    unknown_refs = [ref for ref in refs if ref not in refs_strings]
+                    for ref in unknown_refs:
+                        issues += error_handler.format_error_with_context(ColumnErrors.INVALID_COLUMN_REF, ref)
+                    combinations = [] if unknown_refs else itertools.product(*[refs_strings[key] for key in refs])
+                    for combination in combinations:
                         new_issues = []
                         ref_dict = dict(zip(refs, combination))
                         modified_string = hed_string
